@@ -71,6 +71,9 @@ pub struct Plan {
     /// a violation as the known finding F1 (it disappears) or as something else
     #[serde(default)]
     pub apart: Option<Vec<Input>>,
+    /// mode of the rustfmt stand-in when a formatter is reachable (scenario `formatter`)
+    #[serde(default)]
+    pub fmt_mode: Option<String>,
 }
 
 /// the set with the deliberately shared bare name `Shared-Name` renamed apart per module
@@ -220,6 +223,21 @@ pub struct C11Threads {
     /// fine-grained interleaving: heap allocations of the code under test are yield points
     /// (the allocator seam), small generated inputs, 2..3 threads
     pub fine: bool,
+    /// a formatter is reachable: the rustfmt stand-in in a mode that is a pure function of its
+    /// input (healthy, or rejecting some sources with exit status 1) — the result is then still
+    /// a function of the definitions, whatever was formatted before on the same thread
+    pub fmt: bool,
+}
+
+/// install the rustfmt stand-in as `<dir>/bin/rustfmt` (copy + rename: other workers may do the same)
+fn install_formatter(dir: &str, env: &Env) {
+    let bin = format!("{dir}/bin");
+    let _ = std::fs::create_dir_all(&bin);
+    let tmp = format!("{bin}/.rustfmt-{}", std::process::id());
+    std::fs::copy(&env.fake_rustfmt, &tmp).expect("install fake-rustfmt");
+    use std::os::unix::fs::PermissionsExt;
+    let _ = std::fs::set_permissions(&tmp, std::fs::Permissions::from_mode(0o755));
+    std::fs::rename(&tmp, format!("{bin}/rustfmt")).expect("install fake-rustfmt");
 }
 
 /// a fixed source that touches every lazily initialised table of the compiler
@@ -234,11 +252,19 @@ impl Scenario for C11Threads {
             "xmod-name"
         } else if self.fine {
             "fine-grain"
+        } else if self.fmt {
+            "formatter"
         } else {
             "threads"
         }
     }
     fn runs(&self, tier: Tier) -> u64 {
+        if self.fmt {
+            return match tier {
+                Tier::Quick => 600,
+                Tier::Thorough => 10000,
+            };
+        }
         match (tier, self.xmod, self.fine) {
             (Tier::Quick, false, true) => 1500,
             (Tier::Thorough, false, true) => 30000,
@@ -254,13 +280,16 @@ impl Scenario for C11Threads {
     fn cpu_budget_secs(&self) -> u64 {
         600
     }
+    fn has_subprocess(&self) -> bool {
+        self.fmt
+    }
 
     fn plan(&self, seed: u64, idx: u64, _tier: Tier, env: &Env) -> Value {
         let root = Rng::new(seed);
         let mut w = root.fork("workload");
         // ---- inputs
         let mut inputs: Vec<Input> = vec![];
-        let use_corpus = !self.xmod && !self.fine && !env.corpus.is_empty() && w.chance(1, 4);
+        let use_corpus = !self.xmod && !self.fine && !self.fmt && !env.corpus.is_empty() && w.chance(1, 4);
         if use_corpus {
             // walk the corpus systematically so that every file is reached, plus a random one
             let a = (idx as usize / 4) % env.corpus.len();
@@ -385,6 +414,26 @@ impl Scenario for C11Threads {
                 }
             }
         }
+        let mut fmt_mode = None;
+        if self.fmt {
+            // few threads, short histories, the rasn backend only (it is the one that formats)
+            ops.truncate(3);
+            for h in &mut ops {
+                h.truncate(4);
+                for op in h.iter_mut() {
+                    if op.backend == BackendSel::Ts {
+                        op.backend = BackendSel::Rasn(sut::RasnCfg::default_cfg());
+                    }
+                }
+            }
+            let mut fm = root.fork("formatter");
+            fmt_mode = Some(match fm.below(6) {
+                0 => "ok".to_string(),
+                1 => "slurp".to_string(),
+                2 => "exit3".to_string(),
+                _ => format!("failif:{}", 2 + fm.below(3)),
+            });
+        }
         let mut alloc_yield = 0u32;
         if self.fine {
             // at least two threads with at most three operations each; every k-th allocation yields
@@ -444,7 +493,7 @@ impl Scenario for C11Threads {
         } else {
             None
         };
-        serde_json::to_value(&Plan { seed, inputs, ops, sim: simcfg, schedule: None, reuse_paths, apart }).unwrap()
+        serde_json::to_value(&Plan { seed, inputs, ops, sim: simcfg, schedule: None, reuse_paths, apart, fmt_mode }).unwrap()
     }
 
     /// One pristine grandchild per (input, backend) key: canonical arrangement, literals,
@@ -468,7 +517,17 @@ impl Scenario for C11Threads {
                 }
                 let input = p.inputs[op.input].clone();
                 let backend = op.backend.clone();
+                let fmt_mode = p.fmt_mode.clone();
+                let ref_home = format!("{}/fmt-ref", env.shm);
+                if fmt_mode.is_some() {
+                    install_formatter(&ref_home, env);
+                }
                 let out = fork_run(120, 600_000, |w| {
+                    if let Some(m) = &fmt_mode {
+                        std::env::remove_var("CARGO");
+                        std::env::set_var("CARGO_HOME", &ref_home);
+                        std::env::set_var("FAKE_RUSTFMT_MODE", m);
+                    }
                     let arr = match &input {
                         Input::Gen(set) => canonical(set),
                         _ => Arrangement::default(),
@@ -511,6 +570,11 @@ impl Scenario for C11Threads {
         let mut out = Outcome::default();
         std::env::remove_var("CARGO");
         std::env::set_var("CARGO_HOME", format!("{root}/cargo-home"));
+        if let Some(m) = &p.fmt_mode {
+            install_formatter(&format!("{root}/cargo-home"), env);
+            std::env::set_var("FAKE_RUSTFMT_MODE", m);
+            out.count(&format!("formatter_mode.{}", m.split(':').next().unwrap_or("")), 1);
+        }
 
         // materialise sources (files are written before the shim is armed)
         let mut bodies: Vec<sim::Body<Vec<CompileOut>>> = vec![];
@@ -595,6 +659,9 @@ impl Scenario for C11Threads {
                     out.inconclusive.push(format!("reference for {key} crashed: {}", refs.get(&key).cloned().unwrap_or(Value::Null)));
                     continue;
                 };
+                if p.fmt_mode.is_some() && r0.ok {
+                    out.count(if r0.generated.starts_with("// formatted by fake-rustfmt") { "probe.reference_is_formatted" } else { "probe.reference_is_unformatted_formatter_rejected_it" }, 1);
+                }
                 let what = match &p.inputs[op.input] {
                     Input::Corpus(pth) => format!("corpus file {}", pth.rsplit('/').next().unwrap_or("")),
                     Input::CorpusSet(ps) => format!("corpus set {:?} in source order {:?}", ps.iter().map(|p| p.rsplit('/').next().unwrap_or("")).collect::<Vec<_>>(), op.arr.module_order),
